@@ -27,11 +27,11 @@ CONSTANTS Oracle,      \* set of strings
           Forger       \* a bridger-like address that signs claims naming somebody else
 
 VARIABLES reg, online, approved, power, bridger, bidx, last, delegated, pen,
-          totalPower, lastObs, votes, observed, pending, effects, mops, bonds,
+          totalPower, lastObs, obsExt, votes, observed, pending, effects, mops, bonds,
           op   \* the operation just attempted: [name, o, b, s, n, v, set, res]
 
 svars == <<reg, online, approved, power, bridger, bidx, last, delegated, pen,
-           totalPower, lastObs, votes, observed, pending, effects, mops, bonds>>
+           totalPower, lastObs, obsExt, votes, observed, pending, effects, mops, bonds>>
 vars  == <<svars, op>>
 
 None  == "none"
@@ -39,7 +39,7 @@ Nonce == 1..MaxNonce
 
 Abs == [reg |-> reg, online |-> online, approved |-> approved, power |-> power,
         bridger |-> bridger, bidx |-> bidx, last |-> last, delegated |-> delegated, pen |-> pen,
-        totalPower |-> totalPower, lastObs |-> lastObs, votes |-> votes,
+        totalPower |-> totalPower, lastObs |-> lastObs, obsExt |-> obsExt, votes |-> votes,
         observed |-> observed, pending |-> pending, effects |-> effects]
 
 RECURSIVE SumSet(_, _)
@@ -55,7 +55,7 @@ Init ==
   /\ approved = [o \in Oracle |-> TRUE] /\ power = [o \in Oracle |-> 0]
   /\ bridger = [o \in Oracle |-> None] /\ bidx = [b \in Bridger |-> None]
   /\ last = [o \in Oracle |-> -1] /\ delegated = [o \in Oracle |-> FALSE] /\ pen = [o \in Oracle |-> FALSE]
-  /\ totalPower = 0 /\ lastObs = 0
+  /\ totalPower = 0 /\ lastObs = 0 /\ obsExt = 0
   /\ votes = [n \in Nonce |-> [v \in Variant |-> <<>>]]
   /\ observed = [n \in Nonce |-> [v \in Variant |-> FALSE]]
   /\ pending = [n \in Nonce |-> FALSE] /\ effects = [n \in Nonce |-> [v \in Variant |-> 0]]
@@ -78,7 +78,7 @@ Bond(o, b) ==
      /\ totalPower' = OnlineSum(online', reg', power')
      /\ bonds' = bonds + 1
      /\ op' = this
-     /\ UNCHANGED <<approved, last, pen, lastObs, votes, observed, pending, effects, mops>>
+     /\ UNCHANGED <<approved, last, pen, lastObs, obsExt, votes, observed, pending, effects, mops>>
 
 (* MsgAddDelegate with an amount covering the accrued penalty plus `add`   *)
 (* power units: re-activates an offline oracle and refreshes total power.  *)
@@ -93,7 +93,7 @@ AddDelegate(o, add) ==
      /\ delegated' = [delegated EXCEPT ![o] = IF add > 0 THEN TRUE ELSE @]
      /\ totalPower' = OnlineSum(online', reg, power')
      /\ mops' = mops + 1 /\ op' = this
-     /\ UNCHANGED <<reg, approved, bridger, bidx, last, lastObs, votes, observed, pending, effects, bonds>>
+     /\ UNCHANGED <<reg, approved, bridger, bidx, last, lastObs, obsExt, votes, observed, pending, effects, bonds>>
 
 (* end-block slashing of one oracle (cause modelled in EndBlock.tla):      *)
 (* offline, total power refreshed.                                         *)
@@ -105,7 +105,7 @@ Slash(o) ==
      /\ pen' = [pen EXCEPT ![o] = TRUE]
      /\ totalPower' = OnlineSum(online', reg, power)
      /\ mops' = mops + 1 /\ op' = this
-     /\ UNCHANGED <<reg, approved, power, bridger, bidx, last, delegated, lastObs, votes, observed, pending, effects, bonds>>
+     /\ UNCHANGED <<reg, approved, power, bridger, bidx, last, delegated, lastObs, obsExt, votes, observed, pending, effects, bonds>>
 
 (* MsgUpdateChainOracles(S): refused if the online power removed is > 0    *)
 (* and >= 30% of the online power; removed registered oracles that were    *)
@@ -124,7 +124,7 @@ GovSet(S) ==
      /\ online' = [o \in Oracle |-> IF o \in removed THEN FALSE ELSE online[o]]
      /\ delegated' = [o \in Oracle |-> IF o \in removed THEN FALSE ELSE delegated[o]]
      /\ mops' = mops + 1 /\ op' = this
-     /\ UNCHANGED <<reg, power, pen, bridger, bidx, last, totalPower, lastObs, votes, observed, pending, effects, bonds>>
+     /\ UNCHANGED <<reg, power, pen, bridger, bidx, last, totalPower, lastObs, obsExt, votes, observed, pending, effects, bonds>>
 
 (* MsgUnbondedOracle after the unbonding period: only for an oracle that   *)
 (* governance removed.  Record and both indexes are deleted; the oracle's  *)
@@ -140,7 +140,7 @@ Unbond(o) ==
      /\ power' = [power EXCEPT ![o] = 0]
      /\ pen' = [pen EXCEPT ![o] = FALSE]
      /\ op' = this
-     /\ UNCHANGED <<online, approved, last, delegated, totalPower, lastObs, votes, observed, pending, effects, mops, bonds>>
+     /\ UNCHANGED <<online, approved, last, delegated, totalPower, lastObs, obsExt, votes, observed, pending, effects, mops, bonds>>
 
 EditBridger(o, b) ==
   LET this == Op("EditBridger", o, b, None, 0, None, <<>>, "ok")
@@ -149,7 +149,10 @@ EditBridger(o, b) ==
      /\ bidx' = [bidx EXCEPT ![bridger[o]] = None, ![b] = o]
      /\ bridger' = [bridger EXCEPT ![o] = b]
      /\ mops' = mops + 1 /\ op' = this
-     /\ UNCHANGED <<reg, online, approved, power, last, delegated, pen, totalPower, lastObs, votes, observed, pending, effects, bonds>>
+     /\ UNCHANGED <<reg, online, approved, power, last, delegated, pen, totalPower, lastObs, obsExt, votes, observed, pending, effects, bonds>>
+
+\* external block height carried by the claims for nonce n (harness: the same function)
+ClaimHeight(n) == 1000 + n
 
 LastOf(o) == IF last[o] = -1 THEN (IF lastObs >= 1 THEN lastObs - 1 ELSE 0) ELSE last[o]
 
@@ -175,6 +178,7 @@ Claim(s, b, n, v) ==
      IN /\ votes' = [votes EXCEPT ![n][v] = vs]
         /\ observed' = [observed EXCEPT ![n][v] = IF obs THEN TRUE ELSE @]
         /\ lastObs' = IF obs THEN n ELSE lastObs
+        /\ obsExt' = IF obs THEN ClaimHeight(n) ELSE obsExt   \* the external height is taken from the OBSERVED event only
         /\ pending' = [pending EXCEPT ![n] = IF obs THEN TRUE ELSE @]
         /\ last' = [last EXCEPT ![o] = n]
         /\ op' = this
@@ -187,7 +191,7 @@ Execute(n) ==
      /\ pending' = [pending EXCEPT ![n] = FALSE]
      /\ LET v == CHOOSE x \in Variant : observed[n][x] IN effects' = [effects EXCEPT ![n][v] = @ + 1]
      /\ op' = this
-     /\ UNCHANGED <<reg, online, approved, power, bridger, bidx, last, delegated, pen, totalPower, lastObs, votes, observed, mops, bonds>>
+     /\ UNCHANGED <<reg, online, approved, power, bridger, bidx, last, delegated, pen, totalPower, lastObs, obsExt, votes, observed, mops, bonds>>
 
 GovSets == SUBSET Oracle
 
@@ -277,6 +281,9 @@ A_C02_VoterIsOnlineBridgerAndSigner ==
 C02_VoterIsOnlineBridgerAndSigner == [][A_C02_VoterIsOnlineBridgerAndSigner]_vars
 C02_TotalPowerCoversOnline == totalPower >= OnlineSum(online, reg, power)
 C02_NoOracleTwiceInTally == \A n \in Nonce, v \in Variant, o \in Oracle : Count(votes[n][v], o) <= 1
+
+\* ---- C06 (clause: the observed external height comes from observed events only, never from a minority vote)
+C06_HeightFromObservedOnly == obsExt = (IF lastObs = 0 THEN 0 ELSE ClaimHeight(lastObs))
 
 \* ---- registry sanity used by both (index agrees with records)
 IndexAgree == /\ \A o \in Oracle : reg[o] <=> bridger[o] # None
